@@ -90,8 +90,9 @@ pub fn gen_query(rng: &mut Rng, w: &World, stats: &mut Stats) -> Q {
         by_key: rng.chance(1, 2),
         author,
         key,
-        limit: if rng.chance(1, 3) { Some(rng.below(5)) } else { None },
-        offset: if rng.chance(1, 3) { rng.below(4) } else { 0 },
+        // small windows mostly; now and then the extreme u64 values ("no limit" sentinels, paging past the end)
+        limit: match rng.below(12) { 0..=3 => Some(rng.below(5)), 4 => { stats.inc("q_huge_limit"); Some(*rng.pick(&[u64::MAX, u64::MAX - 1, 1u64 << 63, u32::MAX as u64 + 1])) } _ => None },
+        offset: match rng.below(12) { 0..=3 => rng.below(4), 4 => { stats.inc("q_huge_offset"); *rng.pick(&[u64::MAX, u64::MAX - 2, 1u64 << 40]) } _ => 0 },
         include_empty: rng.chance(1, 2),
         desc: rng.chance(1, 2),
     };
@@ -161,7 +162,15 @@ pub fn run(seed: u64, n: usize, out: &Path, thorough: bool) -> anyhow::Result<()
         let mut qterms = Vec::new();
         let mut jq = Vec::new();
         for q in &queries {
-            let res = ts.s().get_many(w.ns_id(), to_query(q))?.collect::<anyhow::Result<Vec<_>>>()?;
+            // a query that panics is recorded as an answer that no specification can give (one entry with an
+            // all-zero id under a key no generator produces)
+            let ran = std::panic::catch_unwind(std::panic::AssertUnwindSafe(|| -> anyhow::Result<Vec<iroh_docs::SignedEntry>> {
+                ts.s().get_many(w.ns_id(), to_query(q))?.collect::<anyhow::Result<Vec<_>>>()
+            }));
+            let res = match ran {
+                Ok(r) => r?,
+                Err(_) => { stats.inc("query_panicked"); vec![w.signed(0, b"\x00query panicked\x00", HASH_A, 1, 1)] }
+            };
             stats.inc("queries");
             if !res.is_empty() && res.len() < all.len() {
                 let t = format!("{:?}|{}", q, clist(&res, centry));
